@@ -85,8 +85,10 @@ pub struct World {
     pub owner: ComponentAddress,
     pub other_pk: Secp256k1PublicKey,
     pub other: ComponentAddress,
-    /// freely mintable/burnable fungible resource (anyone can mint)
+    /// freely mintable/burnable fungible resource (anyone can mint), divisibility 2
     pub fres: ResourceAddress,
+    /// freely mintable/burnable fungible resource of divisibility 0
+    pub res0: ResourceAddress,
     /// freely mintable/burnable non-fungible resource (integer ids)
     pub nfres: ResourceAddress,
     /// blueprint name -> live global instances (sorted)
@@ -138,7 +140,9 @@ impl World {
         );
         let (owner_pk, _, owner) = ledger.new_account(false);
         let (other_pk, _, other) = ledger.new_account(false);
-        let fres = ledger.create_freely_mintable_and_burnable_fungible_resource(OwnerRole::None, Some(dec!(1000)), 18, owner);
+        // low divisibilities: amounts near Decimal::MAX cannot be rounded to them (overflow paths)
+        let fres = ledger.create_freely_mintable_and_burnable_fungible_resource(OwnerRole::None, Some(dec!(1000)), 2, owner);
+        let res0 = ledger.create_freely_mintable_and_burnable_fungible_resource(OwnerRole::None, Some(dec!(1000)), 0, owner);
         let nfres = ledger.create_freely_mintable_and_burnable_non_fungible_resource(
             OwnerRole::None,
             NonFungibleIdType::Integer,
@@ -180,7 +184,7 @@ impl World {
                     TWO_RESOURCE_POOL_BLUEPRINT,
                     TWO_RESOURCE_POOL_INSTANTIATE_IDENT,
                     TwoResourcePoolInstantiateManifestInput {
-                        resource_addresses: (fres.into(), XRD.into()),
+                        resource_addresses: (fres.into(), res0.into()),
                         pool_manager_rule: rule.clone().into(),
                         owner_role: OwnerRole::None.into(),
                         address_reservation: None,
@@ -191,14 +195,39 @@ impl World {
                     MULTI_RESOURCE_POOL_BLUEPRINT,
                     MULTI_RESOURCE_POOL_INSTANTIATE_IDENT,
                     MultiResourcePoolInstantiateManifestInput {
-                        resource_addresses: indexset![fres.into(), XRD.into()],
+                        resource_addresses: indexset![fres.into(), res0.into(), XRD.into()],
                         pool_manager_rule: rule.clone().into(),
                         owner_role: OwnerRole::None.into(),
                         address_reservation: None,
                     },
                 )
                 .build();
-            ledger.execute_manifest(m, vec![]).expect_commit_success();
+            let receipt = ledger.execute_manifest(m, vec![]);
+            let pools = receipt.expect_commit_success().new_component_addresses().clone();
+            // liquidity in every pool (the owner key is the pool manager)
+            let m = ManifestBuilder::new()
+                .lock_fee_from_faucet()
+                .mint_fungible(fres, dec!(300))
+                .mint_fungible(res0, dec!(200))
+                .get_free_xrd_from_faucet()
+                .take_from_worktop(fres, dec!(100), "f1")
+                .take_from_worktop(fres, dec!(100), "f2")
+                .take_from_worktop(fres, dec!(100), "f3")
+                .take_from_worktop(res0, dec!(100), "z2")
+                .take_from_worktop(res0, dec!(100), "z3")
+                .take_from_worktop(XRD, dec!(100), "x3")
+                .with_name_lookup(|b, l| {
+                    b.call_method(pools[0], ONE_RESOURCE_POOL_CONTRIBUTE_IDENT, OneResourcePoolContributeManifestInput { bucket: l.bucket("f1") })
+                        .call_method(pools[1], TWO_RESOURCE_POOL_CONTRIBUTE_IDENT, TwoResourcePoolContributeManifestInput { buckets: (l.bucket("f2"), l.bucket("z2")) })
+                        .call_method(
+                            pools[2],
+                            MULTI_RESOURCE_POOL_CONTRIBUTE_IDENT,
+                            MultiResourcePoolContributeManifestInput { buckets: ManifestBucketBatch::ManifestBuckets(vec![l.bucket("f3"), l.bucket("z3"), l.bucket("x3")]) },
+                        )
+                })
+                .try_deposit_entire_worktop_or_abort(owner, None)
+                .build();
+            ledger.execute_manifest(m, vec![NonFungibleGlobalId::from_public_key(&owner_pk)]).expect_commit_success();
             // identity, account locker, access controller
             let _ = ledger.new_identity(owner_pk.clone(), false);
             let m = ManifestBuilder::new()
@@ -211,7 +240,20 @@ impl World {
                 )
                 .try_deposit_entire_worktop_or_abort(owner, None)
                 .build();
-            ledger.execute_manifest(m, vec![]).expect_commit_success();
+            let receipt = ledger.execute_manifest(m, vec![]);
+            let commit = receipt.expect_commit_success();
+            let (locker, locker_badge) = (commit.new_component_addresses()[0], commit.new_resource_addresses()[0]);
+            // funds stored in the locker for the other account
+            let m = ManifestBuilder::new()
+                .lock_fee_from_faucet()
+                .create_proof_from_account_of_amount(owner, locker_badge, dec!(1))
+                .mint_fungible(fres, dec!(25))
+                .take_all_from_worktop(fres, "s")
+                .with_name_lookup(|b, l| {
+                    b.call_method(locker, ACCOUNT_LOCKER_STORE_IDENT, AccountLockerStoreManifestInput { claimant: other.into(), bucket: l.bucket("s"), try_direct_send: false })
+                })
+                .build();
+            ledger.execute_manifest(m, vec![NonFungibleGlobalId::from_public_key(&owner_pk)]).expect_commit_success();
             let m = ManifestBuilder::new()
                 .lock_fee_from_faucet()
                 .mint_fungible(fres, dec!(1))
@@ -245,6 +287,7 @@ impl World {
             other_pk,
             other,
             fres,
+            res0,
             nfres,
             probe,
             instances: BTreeMap::new(),
